@@ -886,6 +886,9 @@ func c09r6(p *Program, r *Report) {
 	if fi == nil {
 		return
 	}
+	if c09r6V4UsesPkey(p, r, fi) {
+		return
+	}
 	if c09r6ByRole(p, r, fi) {
 		return
 	}
@@ -1531,4 +1534,68 @@ func c09r6ByRole(p *Program, r *Report, top *FuncInfo) bool {
 	r.Check(v.okFirst, v.inner, "routingKeyInfo (metadata): the first bound column of that name is used", "the search is left at the first match", "the search does not stop at the first matching bound column")
 	r.Check(v.okMissing, v.inner, "routingKeyInfo (metadata): a partition-key column without a bound value yields no routing key", "return without a key", "a partition-key column that is not bound does not abandon routing-key construction (a partial key would hash to a wrong token)")
 	return true
+}
+
+// c09r6V4UsesPkey: the branch taken when the server named the partition-key columns (len(pkeyColumns) > 0) derives
+// the key component types through pkeyColumns. A branch that never reads pkeyColumns again (types taken per bound
+// column) is reported here, where the shape-specific parts of R6 would only say that they no longer recognise the
+// code. Reports true when it reported a violation.
+func c09r6V4UsesPkey(p *Program, r *Report, top *FuncInfo) bool {
+	pkF := p.Field("preparedMetadata", "pkeyColumns")
+	if pkF == nil {
+		return false
+	}
+	reported := false
+	for _, u := range p.unitsOf(top) {
+		info := u.Pkg.TypesInfo
+		mentions := func(n ast.Node) bool {
+			hit := false
+			ast.Inspect(n, func(x ast.Node) bool {
+				if e, ok := x.(ast.Expr); ok && fieldOf(info, e) == pkF {
+					hit = true
+				}
+				return !hit
+			})
+			return hit
+		}
+		inspectNoLit(u.Decl.Body, func(x ast.Node) bool {
+			ifs, ok := x.(*ast.IfStmt)
+			if !ok || !mentions(ifs.Cond) {
+				return true
+			}
+			be, isB := ast.Unparen(ifs.Cond).(*ast.BinaryExpr)
+			if !isB || be.Op != token.GTR && be.Op != token.NEQ {
+				return true
+			}
+			// the branch builds the types: the loop around every store of a TypeInfo runs over pkeyColumns
+			stores, through := false, true
+			ast.Inspect(ifs.Body, func(y ast.Node) bool {
+				as, ok := y.(*ast.AssignStmt)
+				if !ok || len(as.Rhs) != 1 {
+					return true
+				}
+				if sel, ok := ast.Unparen(as.Rhs[0]).(*ast.SelectorExpr); !ok || sel.Sel.Name != "TypeInfo" {
+					return true
+				}
+				stores = true
+				lp := p.enclosing(as, ifs, func(n ast.Node) bool {
+					switch n.(type) {
+					case *ast.ForStmt, *ast.RangeStmt:
+						return true
+					}
+					return false
+				})
+				if lp == nil || !mentions(lp) {
+					through = false
+				}
+				return true
+			})
+			if stores && !through {
+				reported = true
+				r.Bad(ifs, "(*Session).routingKeyInfo takes the key component types through pkeyColumns", "the branch for a server-supplied partition-key index never reads pkeyColumns: the types (and positions) of the routing-key components are those of unrelated bound columns, so the key is encoded with the wrong types and hashed to a wrong token without an error")
+			}
+			return true
+		})
+	}
+	return reported
 }
